@@ -19,8 +19,9 @@ REGISTER = True
 TECHNIQUE = "runtime fault injection at every enumerated (run, step, model) point + observation of the caller-visible exception and of the probe call log"
 RULE = ("generated pipelines (2-4 groups, 1-2 probe models each, 1-3 readouts, 2-4 swept runs); a fault is injected at "
         "EVERY (run, step, model position) point, one per execution, cycling through the exception classes ValueError, "
-        "KeyError, RuntimeError, ZeroDivisionError, OSError, AssertionError and a custom class with a non-standard "
-        "constructor; modes exposure, sequential observation, dask observation (synchronous and threads; processes with "
+        "KeyError, RuntimeError, ZeroDivisionError, OSError, AssertionError, StopIteration, TypeError, IndexError, "
+        "AttributeError, NotImplementedError, Exception, FileNotFoundError, TimeoutError, FloatingPointError, ImportError, "
+        "ExceptionGroup and a custom class with a non-standard constructor; modes exposure, sequential observation, dask observation (synchronous and threads; processes with "
         "picklable classes in thorough), calibration (initial-population and evolution phase by evaluation count); "
         "non-trivial = every injected fault; distinct = distinct (pipeline, mode, point, class) signatures")
 ASSUMPTIONS = ["faults are exceptions raised by models; process kills are not injected",
@@ -52,13 +53,24 @@ class Weird(Exception):
 
 CLASSES = {"ValueError": ValueError, "KeyError": KeyError, "RuntimeError": RuntimeError,
            "ZeroDivisionError": ZeroDivisionError, "OSError": OSError, "AssertionError": AssertionError,
-           "Weird": Weird}
-PICKLABLE = ["ValueError", "KeyError", "RuntimeError", "ZeroDivisionError", "OSError", "AssertionError"]
+           "Weird": Weird,
+           # classes with special treatment somewhere in Python (generators, lookups, imports, groups ...)
+           "StopIteration": StopIteration, "TypeError": TypeError, "IndexError": IndexError,
+           "AttributeError": AttributeError, "NotImplementedError": NotImplementedError,
+           "Exception": Exception, "FileNotFoundError": FileNotFoundError, "TimeoutError": TimeoutError,
+           "FloatingPointError": FloatingPointError, "ImportError": ImportError,
+           "ExceptionGroup": ExceptionGroup}
+PICKLABLE = ["ValueError", "KeyError", "RuntimeError", "ZeroDivisionError", "OSError", "AssertionError",
+             "TypeError", "IndexError", "NotImplementedError", "Exception"]
 
 
 def make_exc(name, token):
     if name == "Weird":
         return Weird(42, token)
+    if name == "ExceptionGroup":
+        return ExceptionGroup(f"group {token}", [ValueError(token)])
+    if name == "FileNotFoundError":
+        return FileNotFoundError(2, token)
     return CLASSES[name](token)
 
 
